@@ -43,6 +43,7 @@ def make_case(seed, tier):
         # no on-error handler for the failing task: the workflow must fail
         t.pop('on_error', None)
         t.pop('on_complete', None)
+        t.pop('publish_on_error', None)
         (w.get('task_defaults') or {}).pop('on_error', None)
         (w.get('task_defaults') or {}).pop('on_complete', None)
         if rng.random() < 0.4:
